@@ -348,15 +348,29 @@ func TestC17NodeFailure(t *testing.T) {
 		WillsA, WillsB int
 		Nodes          int
 		Graceful       bool // node 1 is stopped gracefully (DisconnectClients) instead of failing
+		// Shape of the will topics: plain "status/<k>"; "dotdot" "../<other tenant's mount point>/alerts/<k>" (a topic is a
+		// sequence of opaque levels, '..' is a level like any other and names nothing); "empty-levels" "status//<k>/";
+		// "leading-slash" "/status/<k>"
+		Shape string
 	}
 	var paths []np
 	for _, m := range [][2]string{{"m1", "m2"}, {"m1", "m10"}, {"m10", "m1"}} {
 		for _, wa := range []int{1, 2} {
 			for _, wb := range []int{1, 2} {
 				for _, n := range []int{2, 3} {
-					paths = append(paths, np{m[0], m[1], wa, wb, n, false})
+					paths = append(paths, np{m[0], m[1], wa, wb, n, false, "plain"})
 					if n == 2 {
-						paths = append(paths, np{m[0], m[1], wa, wb, n, true})
+						paths = append(paths, np{m[0], m[1], wa, wb, n, true, "plain"})
+					}
+					if wa == wb {
+						for _, sh := range []string{"dotdot", "empty-levels", "leading-slash"} {
+							if n == 2 || wa == 1 {
+								paths = append(paths, np{m[0], m[1], wa, wb, n, false, sh})
+							}
+							if n == 2 && wa == 1 {
+								paths = append(paths, np{m[0], m[1], wa, wb, n, true, sh})
+							}
+						}
 					}
 				}
 			}
@@ -387,6 +401,18 @@ func TestC17NodeFailure(t *testing.T) {
 						}
 						c := w.NewClient(fmt.Sprintf("dying-%s-%d", x.mp, k), 1, AckAll)
 						topic := fmt.Sprintf("status/%d", k)
+						switch p.Shape {
+						case "dotdot":
+							other := p.MountA
+							if x.mp == p.MountA {
+								other = p.MountB
+							}
+							topic = fmt.Sprintf("../%s/alerts/%d", other, k)
+						case "empty-levels":
+							topic = fmt.Sprintf("status//%d/", k)
+						case "leading-slash":
+							topic = fmt.Sprintf("/status/%d", k)
+						}
 						payload := fmt.Sprintf("will-of-%s-%d", x.mp, k)
 						c.Connect(ConnectOpts{ClientID: fmt.Sprintf("dev%d", k), KeepAlive: 600, User: "mp:" + x.mp, WillTopic: topic, WillMsg: payload, WillQos: 1})
 						want[x.mp][topic+"|"+payload] = true
@@ -430,7 +456,7 @@ func TestC17NodeFailure(t *testing.T) {
 		},
 		func(i int) any { return paths[i] },
 		func(rep *vk.Report) {
-			rep.Rule = "2-3 nodes; node 1 hosts 1-2 will-bearing sessions of each of two tenants (mount pairs (m1,m2), (m1,m10), (m10,m1)), created alternately; node 1 fails; each tenant's '#' watcher on node 2 must receive exactly its own tenant's wills once each, under the names the clients wrote"
+			rep.Rule = "2-3 nodes; node 1 hosts 1-2 will-bearing sessions of each of two tenants (mount pairs (m1,m2), (m1,m10), (m10,m1)), created alternately; will topics plain, with a '..' level naming the other tenant's mount point, with empty levels and a trailing slash, with a leading slash; node 1 fails (or is stopped); each tenant's '#' watcher on node 2 must receive exactly its own tenant's wills once each, under the names the clients wrote"
 			rep.Floor("paths", 10, rep.Nontrivial)
 		})
 }
